@@ -212,7 +212,9 @@ func TestC03(t *testing.T) {
 			if ci != 0 && (i+j)%5 != 0 && !r.Thorough() {
 				return // alterations in full on the first grouping; a fifth of the pairs on the others (quick)
 			}
-			alter(r, d, N, comp, i, j, p, forkRoot, forkD)
+			r.Guard("altering and re-verifying a genuine incremental proof (the proof changed after it was handed out?)", pairCase{N: N, Comp: comp, I: i, J: j, What: "alter"}, func() {
+				alter(r, d, N, comp, i, j, p, forkRoot, forkD)
+			})
 		})
 		if ci == 0 {
 			r.Sample(pairCase{N: N, Comp: comp, I: 3, J: uint64(N - 1), What: "honest + all alterations"})
